@@ -80,6 +80,17 @@ def strat():
     return rar_cfg_strategy().map(lambda c: {"cfg": c})
 
 
+_ZERO = []
+
+
+def _zero_lr_sgd():
+    import optax
+
+    if not _ZERO:
+        _ZERO.append(optax.sgd(0.0))
+    return _ZERO[0]
+
+
 def run_solve(case):
     """End to end through jinns.solve: final generator state vs the model."""
     import jinns
@@ -91,8 +102,12 @@ def run_solve(case):
     labels = [cfg["kind"], "solve"]
     loss, params, _ = make_loss(cfg)
     g = make_generator(cfg)
-    out = jinns.solve(n_iter=cfg["iters"], init_params=params, data=g, loss=loss, optimizer=optax.sgd(1e-3), verbose=False)
+    # zero learning rate: the schedule does not depend on training, and a diverging run would stop solve() early
+    out = jinns.solve(n_iter=cfg["iters"], init_params=params, data=g, loss=loss, optimizer=_zero_lr_sgd(), verbose=False)
     gd = out[3]
+    losses = np.asarray(out[1])
+    if not np.all(np.isfinite(losses)):
+        return ok(nontrivial=False, labels=labels + ["non-finite-loss-skipped"])
     model = model_schedule(cfg, cfg["iters"])
     J = model[-1][1]
     if int(gd.rar_iter_nb) != J:
